@@ -277,7 +277,7 @@ def gen_one(rng, tier):
 
 
 def gen(rng, tier):
-    n = {"quick": 2000, "thorough": 20000, "search": 8000}[tier]
+    n = {"quick": 1600, "thorough": 20000, "search": 8000}[tier]
     for _ in range(n):
         yield gen_one(rng, tier)
 
